@@ -115,6 +115,10 @@ DropKinds == {"oversized", "malformed"}
 ---------------------------------------------------------------------------
 (* replies *)
 
+\* BadLimit > 0: a tagged BAD counts, any other completion resets (pymap counts
+\* and resets only completions that leave the command loop normally - not the
+\* NO / BAD produced from an exception, e.g. a failed SELECT or a cancelled
+\* AUTHENTICATE; Conn_badlimit.cfg offers no such input)
 Reply(r) ==
   /\ last' = r
   /\ IF BadLimit > 0
